@@ -1423,6 +1423,23 @@ def cache_key(chk, prog, files):
                     drops = ("pop('%s'" % name) in txt or ('pop("%s"' % name) in txt or ("del %s.%s" % (hs, name)) in txt or ("cache_clear" in txt and "lru_cache" in decs)
                     if not drops:
                         writers[h.qname] = sorted(hit)
+                # public plain attributes the constructor sets from its arguments are the object's configuration: nothing stops `obj.w = ...` after construction, and an
+                # accessor memoised with @cached_property (keyed on nothing) then keeps answering for the configuration of its first read
+                if not writers and "cached_property" in decs:
+                    init = c.methods.get("__init__")
+                    public = set()
+                    if init is not None:
+                        is_ = init.params[0] if init.params else "self"
+                        public = {x.attr for x in ast.walk(init.node) if isinstance(x, ast.Attribute) and isinstance(x.ctx, ast.Store) and isinstance(x.value, ast.Name)
+                                  and x.value.id == is_ and not x.attr.startswith("_")}
+                    has_hook = any(h_ in c.methods for h_ in ("__setattr__",)) or any(
+                        ("pop('%s'" % name) in ast.unparse(h.node) or ("del %s.%s" % ((h.params or ["self"])[0], name)) in ast.unparse(h.node) for h in c.methods.values())
+                    hit = sorted(public & reads)
+                    if hit and not has_hook:
+                        chk.finding("CACHE-KEY.property", rel, g.qname, "@cached_property on %s" % g.qname,
+                                    "`%s` is memoised on the object for good, but it is computed from %s - public attributes the constructor sets and any caller may re-assign; "
+                                    "after `obj.%s = ...` the accessor keeps returning the value of the earlier configuration while its uncached siblings follow the new one"
+                                    % (g.qname, ", ".join("self." + a_ for a_ in hit[:4]), hit[0]), line=g.node.lineno)
                 if writers:
                     w0 = sorted(writers)[0]
                     chk.finding("CACHE-KEY.property", rel, g.qname, "@%s on %s" % ([d for d in decs if d in ("cached_property", "lru_cache", "cache")][0], g.qname),
